@@ -95,7 +95,7 @@ fn decode(vi: usize, b: &Bounds, idx: u64) -> Case {
     let tag: u64 = if p == 8 { 0x0008_0000_0000_0000 } else { 0x8000_0000 };
     // ... and the return address whose lookup address (minus the call adjustment) is the first byte past module m:
     // the first byte of the adjacent module n when there is one, no module's otherwise
-    let past_end = (modbase + MODSZ).wrapping_add(arch.adj());
+    let past_end = modbase.wrapping_add(MODSZ).wrapping_add(arch.adj()) & top;
     let tagged = [0, in_func, in_func | tag, nofunc | tag, base.wrapping_add(p), base.wrapping_add(2 * p) | tag, (in_func | tag) ^ (tag << 3), past_end];
     let words = (0..n).map(|i| if b.tagged { tagged[dg[i] as usize] } else { alphabet[dg[i] as usize] }).collect();
     let bs = base.wrapping_add(size) & top;
